@@ -10,9 +10,9 @@ rows = []
 for pid in sorted(props):
     t = props[pid]["title"]
     if pid in na:
-        rows.append("| %s | %s | not applicable | | | |" % (pid, t)); continue
+        rows.append("| %s | %s | not applicable | | | | |" % (pid, t)); continue
     if pid not in claimed:
-        rows.append("| %s | %s | not yet claimed | | | |" % (pid, t)); continue
+        rows.append("| %s | %s | not yet claimed | | | | |" % (pid, t)); continue
     ev = {}
     p = R + "/evidence/%s.json" % pid
     if os.path.exists(p):
@@ -24,12 +24,18 @@ for pid in sorted(props):
     for v in sorted(glob.glob(R + "/seeded/%s/*/verdict.json" % pid)):
         d = json.load(open(v))
         seeds.append("%s:%s%s" % (d["change"], d["quick_check"], "*" if d.get("note") else ""))
-    rows.append("| %s | %s | %d theorems, all closed | %s cases (%s tier) | %d fixed%s | %s |" % (
+    neu = []
+    for v in sorted(glob.glob(R + "/neutral/%s/*/verdict.json" % pid)):
+        d = json.load(open(v))
+        q = d["quick_check"]
+        neu.append("%s:%s%s" % (d["change"].replace("round2_", "r2"), {"silent": "ok", "alarm-no-failing-input-found": "nfif"}.get(q, q),
+                                "*" if (d.get("note") and q == "silent" and "ALARM at first" in d["note"]) else ""))
+    rows.append("| %s | %s | %d theorems, all closed | %s cases (%s tier) | %d fixed%s | %s | %s |" % (
         pid, t, cov.get("obligations", 0), cov.get("evaluations", "?"), ev.get("tier", "?"),
-        len(fixed), (", %d open" % len(openf)) if openf else "", " ".join(seeds) or "-"))
+        len(fixed), (", %d open" % len(openf)) if openf else "", " ".join(seeds) or "-", " ".join(neu) or "-"))
 block = ["<!-- BEGIN GENERATED STATUS (check/mkstatus.py) -->",
-         "| id | title | proof | correspondence (last evidence) | genuine defects (fix: commits / open findings) | seeded changes (A/B; * = caught only after strengthening, see seeded/<id>/<x>/verdict.json) |",
-         "|----|-------|-------|------|------|------|"] + rows + ["", "Fix commits and open findings (from KNOWN_FINDINGS.json):", ""]
+         "| id | title | proof | correspondence (last evidence) | genuine defects (fix: commits / open findings) | seeded changes (A/B; * = caught only after strengthening, see seeded/<id>/<x>/verdict.json) | harmless changes (neutral/<id>/<x>: ok = silent, * = false alarm at first, machinery corrected; nfif = `no-failing-input-found` report because an export the correspondence needs no longer compiles) |",
+         "|----|-------|-------|------|------|------|------|"] + rows + ["", "Fix commits and open findings (from KNOWN_FINDINGS.json):", ""]
 for f in kf:
     block.append("* %s — %s" % (f["id"], f["what"]))
 block.append("<!-- END GENERATED STATUS -->")
